@@ -850,7 +850,13 @@ def script_case(kind):
         ).map(lambda t: bytes([13 + 16, 0x07]) + idm + b"\x00\x00\x01"
               + bytes(simtags.t3_attribute(0x10, t[0], t[1], t[2], 0, 1,
                                            min(t[3], 16 * t[2]))))
-        course = st.tuples(poll, attr_ok, st.lists(ans, max_size=8))
+        # ... or a well-framed read response with status 00 00 that carries
+        # fewer whole blocks than were asked for (none at all, count 0 / 1)
+        attr_few = st.sampled_from([0, 0, 1]).map(
+            lambda n: bytes([13, 0x07]) + idm + b"\x00\x00" + bytes([n]))
+        course = st.tuples(poll, st.one_of(attr_ok, attr_ok, attr_ok,
+                                           attr_few),
+                           st.lists(ans, max_size=8))
         plain = st.fixed_dictionaries({
             "kind": st.just(kind), "attrs": attrs, "first": first,
             "answers": answers,
